@@ -63,7 +63,33 @@ impl Property for C02 {
     const ID: &'static str = "C02";
 
     fn strategy(_tier: Tier) -> BoxedStrategy<Case> {
-        (pair_strategy(), xf_strategy()).prop_map(|(Pair { a, b }, xf)| Case { a, b, xf, trusted: true }).boxed()
+        // 1 case in 12: a closed line string / polygon ring with runs of collinear vertices, started at any vertex and in either
+        // direction, against a line (string) lying along one of its sides with end points on vertices or half-way between them
+        let run_pair = (2i64..6, 2i64..5, any::<u8>(), any::<bool>(), 0u8..4, (0u8..40, 0u8..40), any::<bool>(), 0u8..3).prop_map(|(w, h, rot, rev, side, (u, v), as_poly, bkind)| {
+            // rectangle [0,4w] x [0,4h] with a vertex every 4 units
+            let mut open: Vec<crate::exact::C> = vec![];
+            for i in 0..w { open.push((4 * i, 0)); }
+            for j in 0..h { open.push((4 * w, 4 * j)); }
+            for i in 0..w { open.push((4 * (w - i), 4 * h)); }
+            for j in 0..h { open.push((0, 4 * (h - j))); }
+            let n = open.len();
+            open.rotate_left(rot as usize % n);
+            if rev { open.reverse(); }
+            let f = open[0];
+            open.push(f);
+            let a = if as_poly { G::Polygon(crate::refgeom::Poly::new(open, vec![])) } else { G::LineString(open) };
+            // two positions (multiples of 2: vertices and mid points) along the chosen side
+            let len = if side % 2 == 0 { 4 * w } else { 4 * h };
+            let (p, q) = ((u as i64 * 2) % (len + 1), (v as i64 * 2) % (len + 1));
+            let at = |t: i64| match side { 0 => (t, 0), 1 => (4 * w, t), 2 => (t, 4 * h), _ => (0, t) };
+            let b = match bkind {
+                0 => G::Line(at(p), at(q)),
+                1 => G::LineString(vec![at(p), at(q)]),
+                _ => G::LineString(vec![at(p), at((p + q) / 4 * 2), at(q)]),
+            };
+            Pair { a, b }
+        }).prop_filter("degenerate partner", |p| in_relate_domain(&p.a) && in_relate_domain(&p.b));
+        (prop_oneof![11 => pair_strategy().boxed(), 1 => run_pair.boxed()], xf_strategy()).prop_map(|(Pair { a, b }, xf)| Case { a, b, xf, trusted: true }).boxed()
     }
     fn quota(tier: Tier) -> u64 {
         tier.pick(1_000_000, 20_000_000)
@@ -191,6 +217,25 @@ impl Property for C02 {
             cmpb!(k, try_bool!(obs, k, ctx, ga.contains(&co)), m.contains());
         }
 
+        // re-representations of the same point sets (ring start and direction, member order, wrappers): same answers
+        for r in 0..2u64 {
+            let sel = crate::engine::splitmix64(0x51ed27 ^ r ^ (c.a.coords().len() as u64 * 31 + c.b.coords().len() as u64));
+            let (va, vb) = if r == 0 { (crate::conv::variant(&c.a, sel), c.b.clone()) } else { (c.a.clone(), crate::conv::variant(&c.b, sel)) };
+            if !(in_relate_domain(&va) && in_relate_domain(&vb)) {
+                continue;
+            }
+            let (gva, gvb) = (to_geo(&va, &c.xf), to_geo(&vb, &c.xf));
+            let (tva, tvb) = (va.type_name(), vb.type_name());
+            let ctx = || format!("A'={} B'={} xf={:?} true DE-9IM={}", wkt(&va), wkt(&vb), c.xf, m.to_string9());
+            let k = format!("intersects:{tva}/{tvb}");
+            cmpb!(k, try_bool!(obs, k, ctx, with_concrete!(&gva, a => with_concrete!(&gvb, b => a.intersects(b)))), m.intersects());
+            let k = format!("contains:{tva}/{tvb}");
+            cmpb!(k, try_bool!(obs, k, ctx, with_concrete!(&gva, a => with_concrete!(&gvb, b => a.contains(b)))), m.contains());
+            let k = format!("contains:{tvb}/{tva}");
+            cmpb!(k, try_bool!(obs, k, ctx, with_concrete!(&gva, a => with_concrete!(&gvb, b => b.contains(a)))), mt.contains());
+            let k = format!("within:{tva}/{tvb}");
+            cmpb!(k, try_bool!(obs, k, ctx, with_concrete!(&gva, a => with_concrete!(&gvb, b => a.is_within(b)))), m.within());
+        }
         // coordinate_position on the lattice points around each operand
         for (g, gg) in [(&c.a, &ga), (&c.b, &gb)] {
             let Some(((x0, y0), (x1, y1))) = g.bbox() else {
